@@ -48,6 +48,9 @@ CHECKS = {
  'C09': dict(engine='cases', tech='TLA+ scheme tables (spec/OdeSchemes.tla: each integrator as a linear recurrence with rational polynomial coefficients incl. the HOD start-up; exact squared estimator values; Markov and generic islands with exact TT cores) + controller state machine spec/Adaptive.tla model-checked by TLC (invariants + termination) + Trace_Adaptive.tla validating recorded accepted time points; replay of the integrators',
              text='TLC enumerates islands, schemes, step lists, HOD orders and computes exact estimator squares; every step of every returned trajectory must satisfy the scheme recurrence given by the spec polynomial table (ALS and MALS, both micro-solvers, normalisation 0/1/2), lists have steps+1 entries headed by the initial value, inputs keep their value; the adaptive controller is model checked for all outcomes of the trial solves and the recorded time points of real runs are validated against its Accept guard.',
              note='trusted: TLC, numpy matrix polynomials for applying the spec tables, dyadic steps with |hA| <= 1', ref='§5 C09'),
+ 'C10': dict(engine='cases', tech='TLA+ stage words of the splitting schemes (spec/Splitting.tla: bonds, E/O stages, Lie/Strang/Yoshida/Kahan-Li words with coefficient tables; TLC invariants: palindromes, coefficient sums, bond partition, skew-Hermitian islands); words and integer islands replayed against ode.*_splitting with a dense expm reference',
+             text='TLC checks the structure of every word and enumerates chain length, local dimension, interaction rank, homogeneous/inhomogeneous, real and -iH islands; every state returned by the four integrators must equal the ordered product of stage propagators the word prescribes, the measured global order must be 1, 2, 4, >= 6, the 2-norm is preserved for skew-Hermitian generators, normalisation yields unit norm, the initial value is unchanged.',
+             note='trusted: TLC, scipy.linalg.expm as numeric evaluator of the spec-defined product', ref='§5 C10'),
 }
 NA_REASON = 'check not built yet (work in progress)'
 
